@@ -1115,15 +1115,95 @@ func runTypeRecorded(p *Program, r *RuleResult) {
 				path = src
 			}
 			want := path + ".Type"
+			// the value recorded must be this name's type: derived from this consume call
+			// (through Unfold, a constructor assertion, a phi) or a type that was compared
+			// equal to such a value
+			var fromConsume func(v ssa.Value, d int) bool
+			fromConsume = func(v ssa.Value, d int) bool {
+				if d > 8 {
+					return false
+				}
+				switch x := v.(type) {
+				case *ssa.Extract:
+					if x.Tuple == ssa.Value(call) {
+						return x.Index == 0
+					}
+					if ta, ok := x.Tuple.(*ssa.TypeAssert); ok && x.Index == 0 {
+						return fromConsume(ta.X, d+1)
+					}
+				case *ssa.TypeAssert:
+					return fromConsume(x.X, d+1)
+				case *ssa.Call:
+					if sc := x.Common().StaticCallee(); sc != nil && len(x.Common().Args) > 0 && isSessionTypeType(x.Type()) {
+						return fromConsume(x.Common().Args[0], d+1)
+					}
+				case *ssa.Phi:
+					for _, e := range x.Edges {
+						if fromConsume(e, d+1) {
+							return true
+						}
+					}
+				case *ssa.MakeInterface:
+					return fromConsume(x.X, d+1)
+				case *ssa.ChangeInterface:
+					return fromConsume(x.X, d+1)
+				case *ssa.UnOp:
+					if al, ok := x.X.(*ssa.Alloc); ok {
+						for _, st := range storesTo(al) {
+							if fromConsume(st.Val, d+1) {
+								return true
+							}
+						}
+					}
+				}
+				return false
+			}
+			eqT := p.Func(typesPkg, "EqualType")
+			stripUnfold := func(v ssa.Value) ssa.Value {
+				for d := 0; d < 4; d++ {
+					c, ok := v.(*ssa.Call)
+					if !ok || c.Common().StaticCallee() == nil || len(c.Common().Args) == 0 || !isSessionTypeType(c.Type()) || c.Common().StaticCallee() == eqT {
+						break
+					}
+					v = c.Common().Args[0]
+				}
+				return origin(v)
+			}
+			comparedEqual := func(v ssa.Value) bool {
+				vo := stripUnfold(v)
+				for _, c2 := range p.callsIn(m.Fn) {
+					if c2.Common().StaticCallee() != eqT || eqT == nil {
+						continue
+					}
+					a, b := c2.Common().Args[0], c2.Common().Args[1]
+					if (fromConsume(a, 0) && stripUnfold(b) == vo) || (fromConsume(b, 0) && stripUnfold(a) == vo) {
+						return true
+					}
+				}
+				return false
+			}
+			wrongValue := ""
 			isRecord := func(in ssa.Instruction) bool {
 				st, ok := in.(*ssa.Store)
-				return ok && formNamePath(st.Addr, m.Recv, 0) == want
+				if !ok || formNamePath(st.Addr, m.Recv, 0) != want {
+					return false
+				}
+				if fromConsume(st.Val, 0) || comparedEqual(st.Val) {
+					return true
+				}
+				wrongValue = p.instrPos(st)
+				return false
 			}
 			// a success exit reachable from the call without passing a recording store?
 			hits := view.mayReachFrom(call, nil, func(in ssa.Instruction) bool { return exits[in] }, isRecord)
 			if len(hits) == 0 {
 				r.add(fnName(m.Fn), construct, Holds, p.instrPos(call), "every success path stores "+want)
 			} else {
+				if wrongValue != "" {
+					r.add(fnName(m.Fn), construct, Violated, p.instrPos(call),
+						fmt.Sprintf("the type stored on %s at %s is not the type this name had in the context (nor one compared equal to it): the interpreter will take the polarity and mode of another channel for it", path, wrongValue))
+					continue
+				}
 				r.add(fnName(m.Fn), construct, Violated, p.instrPos(call),
 					fmt.Sprintf("the rule can succeed (%s) without recording the type of %s in the form: the interpreter later asks that name for its polarity (forwards created when the process is duplicated or dropped) and finds no type", p.instrPos(hits[0]), path))
 			}
